@@ -95,8 +95,14 @@ def extra(report, env):
             bad = 'parse raised %s' % type(ex).__name__
         if bad and len(fails) < 5:
             fails.append({'formula': text, 'detail': bad})
+    # host values that are never-ending lazy iterables, in a child process with a memory cap (a C-level loop cannot be interrupted in-process)
+    n_lazy, lazy_fails = e2e.lazy_iterables_sweep(env['scratch'])
+    cases += n_lazy
+    fails.extend(lazy_fails[:max(0, 5 - len(fails))])
     bounded(report, 'C01.totality', 'every registered name x arity 0..%d x 15-value typed pool (arity 3 sampled), seeded token soups, '
-            'callbacks returning each pool value / raising 5 exception kinds, line budget 400000' % (3 if env['tier'] == 'thorough' else 2),
+            'callbacks returning each pool value / raising 5 exception kinds, listeners acting on the emitter during a delivery, exceptions with odd args, '
+            'every registered name over never-ending iterables (itertools.count / generator / cycle as variable, function result, range answer; child '
+            'process, 3 GB cap), line budget 400000' % (3 if env['tier'] == 'thorough' else 2),
             cases, fails)
 
 
